@@ -180,7 +180,7 @@ type program struct {
 }
 
 func genProgram(seed uint64, i int64) program {
-	r := hx.NewRand(seed*999983 + uint64(i))
+	r := hx.NewRand(seed*999983 + uint64(i)).Split() // Split: consecutive seeds of hx.NewRand are shifted copies of one stream
 	p := &pg{r: r}
 	nb := 2 + r.Intn(4)
 	var tags []string
